@@ -632,6 +632,10 @@ class client( object ):
                     # Non-transition, and no input available; go get some -- all blocking is done
                     # externally (in the caller), to allow full operation on I/O latency.  On a
                     # non-transition from a sub-machine, just loop if input is still available.
+                    # A datagram carries a whole frame: one that ended within a frame is a failed
+                    # response, never to be completed from the datagram that follows.
+                    assert not self.udp, \
+                        "Incomplete UDP response from %r" % ( addr, )
                     return None
             # Engine has terminated w/ a recognized EtherNet/IP frame.
         except Exception as exc:
